@@ -50,6 +50,19 @@ def fixeddict_types():
     return _TYPES
 
 
+_SUBS = {}
+
+
+def _subclass_of(T):
+    """an importable (hence picklable) subclass of fixeddict type T, defined in this module"""
+    if T not in _SUBS:
+        name = "Sub%d_%s" % (len(_SUBS), T.__name__)
+        S = type(name, (T,), {"__module__": __name__, "__qualname__": name, "helper": lambda self: len(self)})
+        globals()[name] = S
+        _SUBS[T] = S
+    return _SUBS[T]
+
+
 def plan(tier, seed):
     n_types = len(fixeddict_types())
     per_type = 400 if tier == "quick" else 40000
@@ -109,6 +122,10 @@ def run_case(case, ctx):
     declared = list(T.entry_objs)
     dset = set(declared)
     rng = random.Random(case["hseed"])
+    if rng.random() < 0.15:
+        # an application-defined subclass of the fixed-entry type (same entries, an extra method)
+        T = _subclass_of(T)
+        ctx.count("subclass_cases")
     d = T()
     model = {}
     kinds = []
@@ -275,6 +292,32 @@ def run_case(case, ctx):
                     proto = rng.randrange(0, pickle.HIGHEST_PROTOCOL + 1)
                     ctx.count("pickle_proto_%d" % proto)
                     c = pickle.loads(pickle.dumps(d, proto))
+                    if rng.random() < 0.3:
+                        # stored state that names a key the type does not declare (written by another version of the
+                        # type, or by hand): loading it must be refused like any other route
+                        bad_key = rng.choice([u for u in UNDECL if isinstance(u, str)])
+                        st = dict(d)
+                        st[bad_key] = 1
+                        blob = pickle.dumps((type(d), (), st), proto)
+                        cls_, args_, state_ = pickle.loads(blob)
+                        ctx.count("undeclared_state_loads")
+                        try:
+                            o = cls_(*args_)
+                            o.__setstate__(state_)
+                            ctx.violation("fixeddict:undeclared-accepted:setstate",
+                                          "__setstate__ of %s accepted stored state naming undeclared key %r" % (case["type"], bad_key))
+                        except FixedDictKeyError:
+                            pass
+                        # the same through the pickle machinery itself: a polluted instance (key forced in underneath)
+                        p2 = T(d)
+                        dict.__setitem__(p2, bad_key, 1)
+                        try:
+                            q = pickle.loads(pickle.dumps(p2, proto))
+                            if isinstance(q, T) and bad_key in dict.keys(q):
+                                ctx.violation("fixeddict:undeclared-accepted:unpickle",
+                                              "unpickling %s state naming undeclared key %r gave an instance holding it" % (case["type"], bad_key))
+                        except FixedDictKeyError:
+                            pass
                 nontrivial = True
                 ctx.count("copies_checked")
                 if type(c) is not T:
